@@ -67,6 +67,9 @@ pub enum FaultKind {
     AllValues { pkt: usize, pos: usize },
     /// every value of the byte at `pos` of a foreign (harness-encoded) packet, after pushing `context`
     AllValuesForeign { context: Vec<Vec<u8>>, pkt: Vec<u8>, pos: usize },
+    /// fresh receivers: the session's own FDT with ONE attribute rewritten arrives first (the object then takes
+    /// its parameters from it), then the object packets; every value of the list for the attribute
+    HostileFdtFirst { attr: String },
 }
 
 #[derive(Clone, Debug, PartialEq, Serialize, Deserialize)]
@@ -174,8 +177,57 @@ pub fn foreign() -> Vec<(Vec<Vec<u8>>, Vec<u8>)> {
 const HDR_POS_MAX: u64 = 72; // header region positions enumerated per packet
 const PKT_MAX: u64 = 24;
 
+const FDT_ATTRS: [&str; 9] = [
+    "FEC-OTI-Scheme-Specific-Info",
+    "FEC-OTI-Encoding-Symbol-Length",
+    "FEC-OTI-Maximum-Source-Block-Length",
+    "FEC-OTI-Max-Number-of-Encoding-Symbols",
+    "FEC-OTI-FEC-Encoding-ID",
+    "FEC-OTI-FEC-Instance-ID",
+    "Transfer-Length",
+    "Content-Length",
+    "Content-Encoding",
+];
+
+/// Values tried for an FDT attribute (the original value `orig` gives the neighbours).
+fn fdt_attr_values(attr: &str, orig: &str) -> Vec<String> {
+    use base64::Engine;
+    let mut v: Vec<String> = Vec::new();
+    match attr {
+        "FEC-OTI-Scheme-Specific-Info" => {
+            let raw = base64::engine::general_purpose::STANDARD.decode(orig).unwrap_or_default();
+            for i in 0..raw.len() {
+                for x in [0u8, 1, 2, 255] {
+                    let mut r = raw.clone();
+                    r[i] = x;
+                    v.push(base64::engine::general_purpose::STANDARD.encode(&r));
+                }
+            }
+            for s in ["", "AA==", "AAAAAA==", "//////8=", "!!!!"] {
+                v.push(s.to_string());
+            }
+        }
+        "Content-Encoding" => v.extend(["gzip", "zlib", "deflate", "null", "bogus", ""].iter().map(|s| s.to_string())),
+        "FEC-OTI-FEC-Encoding-ID" => v.extend(["0", "1", "2", "3", "5", "6", "128", "129", "255", "256", "-1"].iter().map(|s| s.to_string())),
+        _ => {
+            let n: i128 = orig.parse().unwrap_or(0);
+            for d in [-1i128, 1, 2, 3] {
+                v.push((n + d).max(0).to_string());
+            }
+            for s in ["0", "1", "2", "3", "255", "256", "65535", "65536", "4294967295", "4294967296", "18446744073709551615", "18446744073709551616", "-1", "", "abc"] {
+                v.push(s.to_string());
+            }
+            v.push((n * 2).to_string());
+            v.push((n / 2).to_string());
+        }
+    }
+    v.retain(|x| x != orig);
+    v.dedup();
+    v
+}
+
 fn n_enum() -> u64 {
-    256 + corpus().len() as u64 * PKT_MAX * HDR_POS_MAX + foreign().len() as u64 * 48
+    256 + corpus().len() as u64 * PKT_MAX * HDR_POS_MAX + foreign().len() as u64 * 48 + corpus().len() as u64 * FDT_ATTRS.len() as u64
 }
 
 pub fn hostile_xml(rng: &mut Rng, base: &str) -> String {
@@ -301,7 +353,7 @@ pub fn gen(idx: u64, rng: &mut Rng, tier: Tier) -> Scn {
         };
     }
     let n_own = 256 + corp.len() as u64 * PKT_MAX * HDR_POS_MAX;
-    if idx >= n_own && idx < n_enum() {
+    if idx >= n_own && idx < n_own + foreign().len() as u64 * 48 {
         let k = idx - n_own;
         let f = foreign();
         let (context, pkt) = f[(k / 48) as usize].clone();
@@ -310,6 +362,16 @@ pub fn gen(idx: u64, rng: &mut Rng, tier: Tier) -> Scn {
             recv,
             faults: vec![Fault { at: 1, kind: FaultKind::AllValuesForeign { context, pkt, pos: (k % 48) as usize } }],
             fresh_all: true,
+        };
+    }
+    let n_foreign = n_own + foreign().len() as u64 * 48;
+    if idx >= n_foreign && idx < n_enum() {
+        let k = idx - n_foreign;
+        return Scn {
+            sender: corp[(k / FDT_ATTRS.len() as u64) as usize].clone(),
+            recv,
+            faults: vec![Fault { at: 0, kind: FaultKind::HostileFdtFirst { attr: FDT_ATTRS[(k % FDT_ATTRS.len() as u64) as usize].to_string() } }],
+            fresh_all: false,
         };
     }
     if idx < n_own {
@@ -659,6 +721,35 @@ pub fn run(scn: &Scn, ctx: &Ctx, scratch: &Path) {
                     }
                     ctx.borrow_mut().count_fault("inject-short-datagrams");
                     fired += 1;
+                }
+                FaultKind::HostileFdtFirst { attr } => {
+                    // the first complete, readable FDT instance of the session
+                    if let Some(tx) = sess.txs.iter().find(|t| t.complete_at.is_some() && t.xml.is_some() && t.cenc == 0) {
+                        let xml = String::from_utf8_lossy(tx.xml.as_ref().unwrap()).to_string();
+                        let needle = format!("{}=\"", attr);
+                        let objs: Vec<&[u8]> = sess.trace.pkts.iter().filter(|p| p.dec.toi != 0).map(|p| p.bytes.as_slice()).collect();
+                        let mut spots = Vec::new();
+                        let mut from = 0;
+                        while let Some(i) = xml[from..].find(&needle) {
+                            let st = from + i + needle.len();
+                            let en = st + xml[st..].find('"').unwrap_or(0);
+                            spots.push((st, en));
+                            from = en;
+                        }
+                        for (st, en) in spots {
+                            let orig = xml[st..en].to_string();
+                            for v in fdt_attr_values(attr, &orig) {
+                                let mut x = xml.clone();
+                                x.replace_range(st..en, &v);
+                                let fdt = wire::packetise_fdt(x.as_bytes(), scn.sender.spec.tsi, tx.instance_id, tx.e as usize, None, None);
+                                let (last, head) = fdt.split_last().unwrap();
+                                let cx: Vec<&[u8]> = head.iter().map(|b| b.as_slice()).collect();
+                                fresh_variant(scn, ctx, &cx, last, &objs, &format!("fresh receiver: FDT with {}=\"{}\" (was \"{}\") first, then the object packets", attr, truncate(&v, 40), truncate(&orig, 40)));
+                                fired += 1;
+                            }
+                        }
+                        ctx.borrow_mut().count_fault("hostile-fdt-attribute-first");
+                    }
                 }
                 FaultKind::AllValuesForeign { context, pkt, pos } => {
                     for c in context {
